@@ -31,6 +31,8 @@ NAME_FAMILIES = [
     "/var/lib/app/objects/{hex38}/zq{tag}", "/var/cache/fontconfig/{hex32}-le64.cache-zq{tag}", "/var/lib/app/{hex16}/zq{tag}",
     "/var/lib/app/seq/{int64}/zq{tag}", "/var/lib/app/seq/{int32}/zq{tag}", "/var/lib/app/seq/{int16}/zq{tag}", "/var/log/app/{int10}/zq{tag}",
     "/var/log/app/{int8}/zq{tag}", "/var/spool/app/{int6}/zq{tag}",
+    # ... and widths between the rewritten ones (a millisecond timestamp has 13 digits)
+    "/var/lib/app/snapshot-{int13}.idx-zq{tag}", "/var/lib/app/{int11}/zq{tag}", "/var/lib/app/{int15}/zq{tag}", "/var/lib/app/{int27}/zq{tag}", "/var/lib/app/{hex20}/zq{tag}",
     "/usr/share/icons/Adwaita/16x16/zq{tag}.png", "/etc/ssl/certs/ca-certificates-zq{tag}.crt", "/home/{user}/Téléchargements/zq{tag}", "/media/{user}/USB DISK/zq{tag}",
 ]
 USERS = ["alice", "bob", "user1", "Ünï"]
@@ -96,7 +98,8 @@ def gen_record(rng, tag, cls=None, status=None, profile=None, tame=False):
     name = rng.choice(NAME_FAMILIES).format(user=user, pid=rng.randint(2, 99999), tid=rng.randint(2, 99999), uid=rng.choice([1000, 1001, 0, 120]), tag=ts_,
                                              arch=rng.choice(["amd64", "x86_64", "i386", "i686", "arm64", "aarch64", "riscv64", "armhf"]),
                                              uuid=uuid, hex64=hexrun(64), hex38=hexrun(38), hex32=hexrun(32), hex16=hexrun(16),
-                                             int64=digits(64), int32=digits(32), int16=digits(16), int10=digits(10), int8=digits(8), int6=digits(6))
+                                             int64=digits(64), int32=digits(32), int16=digits(16), int10=digits(10), int8=digits(8), int6=digits(6),
+                                             int13=digits(13), int11=digits(11), int15=digits(15), int27=digits(27), hex20=hexrun(20))
     f = [("apparmor", status)]
     if cls in ("file", "exec", "link"):
         op = {"exec": "exec", "link": "link"}.get(cls) or rng.choice([o for o in FILE_OPS if o not in ("exec", "link")])
